@@ -1,8 +1,9 @@
 """G-cref: documents using package cleveref ('poorman' sed file read with \\YYCleverefInput).
 
-cleveref.py is not part of the Lean model (its sed reader is a set of regular expressions over a
-file): these documents are judged on the implementation only, by the direct oracles (range C01,
-totality C07, span of generated text C04, independence of history C17)."""
+These documents are judged on the implementation by the direct oracles (range C01, totality C07, span of
+generated text C04, independence of history C17); since cleveref.py is part of the Lean model
+(Model/Cleveref.lean, handlers .readSed / .cref / .crefrange) they also go through the model
+correspondence (corr.t2t; sed lines, sed files and irregular documents: corr_cref.py)."""
 
 def _word(rng):
     return 'Q' + ''.join(rng.choice('abcdefghijklmnopqrstuvwxyz') for _ in range(rng.randint(3, 5)))
